@@ -122,6 +122,10 @@ def cases(tier):
             if KERNELS[ki][0] == "gauss_corr" and n > 300:
                 continue
             yield {"region": 1, "pixel": 1.0, "kernel": ki, "big": n}
+    # high resolution: 40x40 and 80x120 pixels (fine meshes, chunked corner evaluation)
+    for ki in (0, 2, 3, 9, 14, 17):
+        yield {"region": 0, "pixel": 0.05, "kernel": ki, "hires": True}
+    yield {"region": 1, "pixel": 0.025, "kernel": 0, "hires": True}
 
 
 def run_case(case, ctx):
@@ -134,6 +138,9 @@ def run_case(case, ctx):
     if "big" in case:
         diagrams = [big_diagram(case["big"])]
         weights = [WEIGHTS[0], WEIGHTS[3]]
+    if case.get("hires"):
+        diagrams = [[POINTS[0]], [POINTS[6], POINTS[12]], [POINTS[1], POINTS[2], POINTS[8]]]
+        weights = [WEIGHTS[0]]
     for weight in weights:
         im = PersistenceImager(birth_range=br, pers_range=pr, pixel_size=px, **imager_kwargs(kernel, weight))
         ctx.trans()
@@ -146,7 +153,7 @@ def run_case(case, ctx):
                           observed={"resolution": list(res), "birth_range": list(im.birth_range), "pers_range": list(im.pers_range)},
                           expected={"resolution": list(want_res)})
             continue
-        for skew in ((True,) if "big" in case else (True, False)):
+        for skew in ((True,) if ("big" in case or case.get("hires")) else (True, False)):
             for D in diagrams:
                 A = np.array(D, dtype=float)
                 bp = [(b, d - b) for b, d in D] if skew else [(b, d) for b, d in D]
